@@ -68,6 +68,12 @@ class CFG:
                     b.elems.append(Elem("other", None, e, b.id, pos))
             if "cond" in rb:
                 b.cond = resolve(rb["cond"])
+                if b.cond is None and isinstance(rb["cond"], int) and rb["cond"] in getattr(fn, "_stripped", {}):
+                    # the terminator was a `!x` that the canonical polarity of the tree dropped: branch on x with the successors exchanged
+                    inner, nots = fn._stripped[rb["cond"]]
+                    b.cond = inner
+                    if nots % 2 and len(b.succ) == 2:
+                        b.succ = [b.succ[1], b.succ[0]]
                 # canonical polarity: a branch on `!c` is the branch on `c` with its two successors exchanged (successor 0 = condition true)
                 if b.cond is not None and len(b.succ) == 2:
                     c_, nots = b.cond, 0
